@@ -195,6 +195,18 @@ func (g *bridgeGen) newDepositTx(flaw string) *depInfo {
 	}
 	d := &depInfo{version: version, key: key, evm: evm, value: value,
 		gen: Ev{"key": project.KeyID(key.Pub), "evm": hex.EncodeToString(evm), "version": int(version), "magicOk": true}}
+	if g.r.Intn(12) == 0 && len(script) > 2 {
+		// the handed-out witness program under ANOTHER witness version: a different address, which nobody handed out
+		script = append([]byte{}, script...)
+		vers := []byte{txscript.OP_0, txscript.OP_1, txscript.OP_2, txscript.OP_3, txscript.OP_16}
+		for {
+			if v := vers[g.r.Intn(len(vers))]; v != script[0] {
+				script[0] = v
+				break
+			}
+		}
+		d.gen = Ev{"key": "", "evm": "", "version": -1, "magicOk": false}
+	}
 	outs := []btc.Out{{Value: value, Script: script}}
 	if version == 1 {
 		outs = append(outs, btc.Out{Value: 0, Script: resp.OpReturnScript})
